@@ -301,7 +301,7 @@ pub fn drive_builder(a: &Args) {
         }
     }
     // many labels in one state (9..40), scrambled, with or without one conflicting label: accepted / rejected, no panic
-    for &n in &[9u32, 16, 17, 21, 22, 27, 40] {
+    for &n in &[9u32, 16, 17, 21, 22, 27, 40, 257] {
         for conflict in [false, true] {
             for shuffle in 0..2u64 {
                 let mut adds: Vec<Call> = (0..n).map(|k| Call::Add(0, 10 * k + 5, 10 * k + 8, 1 + k % 2)).collect();
